@@ -30,7 +30,18 @@ ASSUMPTIONS = ["(in)equality pairs are not part of the iteration over grounded p
 CASE_TIMEOUT = 60
 
 
+TWO_SCHEMAS = """(define (domain v2)
+(:requirements :typing :negative-preconditions)
+(:types t1 t3 - object t2 - t1)
+(:predicates (r) (p ?a - t1) (q ?a - t1 ?b - t1) (m ?a - object))
+(:action a :parameters (?x - t2 ?y - t1) :precondition (and (q ?x ?y) (not (p ?x))) :effect (and (not (q ?x ?y)) (m ?y) (p ?x)))
+(:action b :parameters (?x - t1 ?y - t2) :precondition (and (q ?x ?y) (not (p ?x))) :effect (and (not (q ?x ?y)) (m ?y) (p ?x)))
+(:action c :parameters (?x - t1 ?y - t1) :precondition (and (q ?x ?y) (m ?y)) :effect (and (p ?x) (not (m ?y)))))
+"""
+
+
 def cases(tier):
+    yield {"kind": "two-schemas", "pre": "(q ?x ?y) in three schemas", "eff": "", "tags": ["two-schemas"], "domain": TWO_SCHEMAS}
     seen = set()
     for gen in (vdom.pre_programs, vdom.eff_programs):
         for p in gen(tier):
@@ -141,7 +152,52 @@ def expected_typed(S, act, lit, beta, objs):
     return f"(not {txt})" if lit[0] == "not" else txt
 
 
+def check_two_schemas(case):
+    """three schemas of ONE domain share literal texts and parameter names but type the parameters differently; they are
+    grounded one after the other with the same objects, in every order: each reports the typed literals of its own schema"""
+    from itertools import permutations
+    from ..bridge import parse_domain, operator
+    from ..refsem import RefDomain
+    from pddl_plus_parser.models import PDDLObject
+    r = CaseResult()
+    r.nontrivial = True
+    S = RefDomain.from_tree(sexp.read(TWO_SCHEMAS))
+    objs = {"o2": "t2", "o5": "t2"}
+    for order in permutations(["a", "b", "c"]):
+        D = parse_domain(TWO_SCHEMAS)
+        pobjs = {o: PDDLObject(o, D.types[t]) for o, t in objs.items()}
+        for name in order:
+            for args in (["o2", "o5"], ["o2", "o2"]):
+                act = S.actions[name]
+                beta = dict(zip([p for p, _ in act.params], args))
+
+                def typed():
+                    op = operator(D, name, args, pobjs)
+                    op.ground()
+                    pre = Counter(str(o) for _, o in op.grounded_preconditions if hasattr(o, "object_mapping"))
+                    eff = Counter(str(p) for ge in op.grounded_effects for p in ge.grounded_discrete_effects)
+                    return pre, eff
+                got = guard(typed)
+                r.count("transitions")
+                r.seen("states", digest((order, name, tuple(args))))
+                lits_pre = [l for l in act.pre[1:]]
+                lits_eff = [l for l in act.eff[1:]]
+                want_pre = Counter(expected_typed(S, act, l, beta, objs) for l in lits_pre)
+                want_eff = Counter(expected_typed(S, act, l, beta, objs) for l in lits_eff)
+                if isinstance(got, Raised) or set(got[0]) != set(want_pre) or set(got[1]) != set(want_eff):
+                    r.outcome("typed-differs")
+                    r.fail("typed-literals", f"schemas grounded in the order {order}: ({name} {' '.join(args)}) reports typed literals "
+                           f"{got if isinstance(got, Raised) else (sorted(got[0]), sorted(got[1]))}, expected "
+                           f"{(sorted(want_pre), sorted(want_eff))}", str((sorted(want_pre), sorted(want_eff))), str(got)[:300],
+                           tags=["two-schemas"])
+                    return r
+        r.outcome("agree")
+    return r
+
+
 def check_case(case):
+    if case.get("kind") == "two-schemas":
+        return check_two_schemas(case)
     r = CaseResult()
     pg = Prog(case)
     if not pg.parsed:
